@@ -69,6 +69,7 @@ package main
 //@   ensures [releasedOthers] svcRo == nil ==> (forall s string :: s != name ==> c.ips.allocated[s] == old(c.ips.allocated[s])) && allocator.Inv(c.ips)
 //@   ensures [nothingToDo] svcRo == nil && !old(c.ips.allocated[name] != nil && c.ips.allocated[name].pool != "") ==> result == controllers.SyncStateSuccess && (forall s string :: c.ips.allocated[s] == old(c.ips.allocated[s]))
 //@   assert before UpdateStatus: [writesConverged] arg0 == svc
+//@   exit assert [writeFailureRetried] err != nil ==> result == controllers.SyncStateError
 //@   ensures [noConfig] svcRo != nil && old(c.pools == nil || c.pools.ByName == nil) ==> result == controllers.SyncStateSuccess && (forall s string :: c.ips.allocated[s] == old(c.ips.allocated[s]))
 
 // SetPools (controller): a usable configuration is handed to the allocator (which keeps every still admissible
